@@ -25,7 +25,8 @@ type Item struct {
 	O        *Obligation
 	Script   string
 	ScriptQF string
-	ScriptNoLocal string
+	ScriptSliced                []string
+	ScriptLight, ScriptNoLocal string
 	Res      SolveResult
 	Status   string // discharged | known-finding | violation
 	Finding  *Finding
@@ -146,6 +147,31 @@ func checkMain(args []string) int {
 			if o.Assumps != nil {
 				as = o.Assumps
 			}
+			prevN := -1
+			for _, depth := range []int{1, 2, 0} {
+				sl := sliceAssumptions(as, o.Cond, depth)
+				if len(sl)*4 <= len(as)*3 && len(sl) != prevN {
+					it.ScriptSliced = append(it.ScriptSliced, script(sl, o.Cond, nil))
+					prevN = len(sl)
+					if os.Getenv("GOVC_DEBUG_SLICE") != "" {
+						fmt.Fprintf(os.Stderr, "slice(depth %d) %s: %d of %d assumptions\n", depth, o.Name, len(sl), len(as))
+					}
+				}
+			}
+			if len(g.E.heavy) > 0 {
+				var light []*Term
+				dropped := 0
+				for _, a := range as {
+					if g.E.heavy[a] {
+						dropped++
+					} else {
+						light = append(light, a)
+					}
+				}
+				if dropped > 0 {
+					it.ScriptLight = script(append(light, g.WatchAssumes...), o.Cond, nil)
+				}
+			}
 			if len(o.Local) > 0 {
 				// first without the goal-directed unfoldings of recursive spec functions (they are only needed when the
 				// goal has to be established from the definition; otherwise they only slow the solvers down)
@@ -189,6 +215,21 @@ func checkMain(args []string) int {
 		if it.EngineErr != "" {
 			return
 		}
+		for _, sc := range it.ScriptSliced {
+			r := solvePortfolio(sc, 3, seed)
+			if r.Verdict == "unsat" {
+				r.Solver += " (cone of influence)"
+				it.Res = r
+				return
+			}
+		}
+		if it.ScriptLight != "" {
+			r := solvePortfolio(it.ScriptLight, 3, seed)
+			if r.Verdict == "unsat" {
+				it.Res = r
+				return
+			}
+		}
 		if it.ScriptNoLocal != "" {
 			r := solvePortfolio(it.ScriptNoLocal, 3, seed)
 			if r.Verdict == "unsat" {
@@ -201,6 +242,20 @@ func checkMain(args []string) int {
 			// undecided is not refuted: one more attempt with other solver seeds and twice the budget, so that solver
 			// variance near the time limit does not turn into an alarm
 			r := solvePortfolio(it.Script, 2*secs, seed+7)
+			r.Secs += it.Res.Secs
+			if r.Verdict != "unknown" {
+				it.Res = r
+			} else if it.ScriptLight != "" {
+				r2 := solvePortfolio(it.ScriptLight, 2*secs, seed+7)
+				if r2.Verdict == "unsat" {
+					r2.Secs += r.Secs
+					it.Res = r2
+				}
+			}
+		}
+		if it.Res.Verdict == "unknown" {
+			// last attempt: four times the budget
+			r := solvePortfolio(it.Script, 4*secs, seed+13)
 			r.Secs += it.Res.Secs
 			if r.Verdict != "unknown" {
 				it.Res = r
@@ -305,7 +360,7 @@ func checkMain(args []string) int {
 			}
 			fmt.Fprintf(os.Stderr, "  %-14s %-8s %-9s %5.2fs %s%s %s\n", it.Status, it.Res.Verdict, it.Res.Solver, it.Res.Secs, it.O.Name, pos, it.EngineErr)
 		}
-		if *dump != "" && it.Status != "discharged" && it.Script != "" {
+		if *dump != "" && (it.Status != "discharged" || os.Getenv("GOVC_DUMP_ALL") != "") && it.Script != "" {
 			os.MkdirAll(*dump, 0755)
 			os.WriteFile(filepath.Join(*dump, sanitize(it.O.Name)+".smt2"), []byte(it.Script), 0644)
 		}
